@@ -1,6 +1,7 @@
 mod apgen;
 mod c01;
 mod c03;
+mod c04;
 mod c05;
 mod c10;
 mod c16;
@@ -89,6 +90,7 @@ fn main() {
     let code = match id.as_str() {
         "C01" => c01::run(tier),
         "C03" => c03::run(tier),
+        "C04" => c04::run(tier),
         "C05" => c05::run(tier),
         "C10" => c10::run(tier),
         "C16" => c16::run(tier),
